@@ -33,6 +33,10 @@ type Config struct {
 	Control    bool   `json:"control"` // also run the schedule without litestream (C14)
 	Audit      bool   `json:"audit"`   // restore every TXID at the end (C02)
 	InitCkpt   bool   `json:"initCkpt"` // checkpoint(TRUNCATE) after the initial load, so the WAL starts empty
+	Levels     int    `json:"levels"`   // highest compaction level below the snapshot level (default 2)
+	NoRetention bool  `json:"noRetention"` // RetentionEnabled = false (deletion delegated to the storage provider)
+	Faults     bool   `json:"faults"`   // wrap the replica client in the fault injector
+	RestoreEach bool  `json:"restoreEach"` // restore the latest state after every litestream/replica step (C05-C07)
 }
 
 type Case struct {
@@ -71,6 +75,9 @@ type Event struct {
 	Ctl    int       `json:"ctl"`
 	Cfg    Config    `json:"cfg"`
 	Audit  []AuditTx `json:"audit"`
+	NewRem []LtxObs  `json:"newrem"`
+	FaultsLeft int   `json:"faultsLeft"`
+	Calls  []string  `json:"calls"`
 }
 
 type AuditTx struct {
@@ -100,6 +107,8 @@ type Runner struct {
 	seenL0  map[string]bool
 	prevRem map[string]bool
 	gated   any // in-flight step-by-step checkpoint (gate.go)
+	seenRem map[string]bool
+	fc      *faultClient
 	nextRow int
 	ctx     context.Context
 	Hooks   func(r *Runner, ls *litestream.DB) // optional: lets a driver configure a freshly created litestream.DB
@@ -217,7 +226,16 @@ func (r *Runner) newLS() *litestream.DB {
 	db.MaxSyncWALBytes = int64(cfg.MaxBytes)
 	client := file.NewReplicaClient(r.repDir)
 	client.SetLogger(discard)
-	db.Replica = litestream.NewReplicaWithClient(db, client)
+	var rc litestream.ReplicaClient = client
+	if cfg.Faults {
+		if r.fc == nil {
+			r.fc = &faultClient{armed: map[string]int{}}
+		}
+		r.fc.ReplicaClient = client
+		rc = r.fc
+	}
+	db.RetentionEnabled = !cfg.NoRetention
+	db.Replica = litestream.NewReplicaWithClient(db, rc)
 	db.Replica.MonitorEnabled = false
 	if r.Hooks != nil {
 		r.Hooks(r, db)
@@ -250,7 +268,8 @@ func argStr(st []any, k int, def string) string {
 func (r *Runner) Step(st []any, noLS bool) (res string, ack bool) {
 	op := argStr(st, 0, "")
 	ctx := r.ctx
-	isLS := strings.HasPrefix(op, "Ls") || strings.HasPrefix(op, "Ck") || op == "MetaLost" || op == "Snapshot" || op == "Compact" ||
+	isLS := strings.HasPrefix(op, "Ls") || strings.HasPrefix(op, "Ck") || op == "Fault" || op == "ClearFaults" || op == "SnapRetention" ||
+		op == "L0Retention" || op == "RetByTXID" || op == "RestoreCheck" || op == "AuditNow" || op == "MetaLost" || op == "Snapshot" || op == "Compact" ||
 		strings.HasPrefix(op, "Ret") || op == "ReplaceDb" || op == "SaveCopy"
 	if noLS && isLS && op != "ReplaceDb" && op != "SaveCopy" {
 		return "skip", false
@@ -261,6 +280,9 @@ func (r *Runner) Step(st []any, noLS bool) (res string, ack bool) {
 	}
 	if r.gated != nil && (strings.HasPrefix(op, "Ls") || op == "Snapshot" || op == "Compact") {
 		r.gateFinish() // the executor is held by the in-flight checkpoint: let it finish first
+	}
+	if res, ack, ok := r.replStep(op, st); ok {
+		return res, ack
 	}
 	switch op {
 	// ---------------------------------------------------------------- application
@@ -615,6 +637,7 @@ func (r *Runner) observe(ev *Event) {
 	ev.Remote = listLTX(filepath.Join(r.repDir, "ltx"))
 	ev.Local = listLTX(r.metaLTXDir())
 	ev.LPos, ev.RPos = maxTx(ev.Local, 0), maxTx(ev.Remote, 0)
+	r.observeRemote(ev)
 	ev.NewL0 = []LtxObs{}
 	for _, f := range ev.Local {
 		if f[0] != 0 {
@@ -711,7 +734,7 @@ func RunCase(c Case, baseDir string, hooks func(r *Runner, ls *litestream.DB)) (
 		dir := filepath.Join(baseDir, fmt.Sprintf("case-%d-%s", c.ID, sub))
 		os.RemoveAll(dir)
 		return &Runner{c: c, dir: dir, dbPath: filepath.Join(dir, "db"), repDir: filepath.Join(dir, "replica"),
-			tmp: filepath.Join(dir, "tmp"), dict: dict, seenL0: map[string]bool{}, ctx: context.Background(), Hooks: hooks}
+			tmp: filepath.Join(dir, "tmp"), dict: dict, seenL0: map[string]bool{}, seenRem: map[string]bool{}, ctx: context.Background(), Hooks: hooks}
 	}
 	// control run (no litestream): application-visible content after every step
 	var ctl []int
@@ -756,8 +779,22 @@ func RunCase(c Case, baseDir string, hooks func(r *Runner, ls *litestream.DB)) (
 		ev.N = argInt(st, 1, 0)
 		ev.Res, ev.Ack = r.Step(st, false)
 		r.observe(&ev)
-		if ev.Ack {
+		isRepl := strings.HasPrefix(ev.Op, "Ls") || ev.Op == "Compact" || ev.Op == "Snapshot" || strings.HasSuffix(ev.Op, "Retention") || ev.Op == "RetByTXID"
+		if ev.Ack || ev.Op == "RestoreCheck" || (c.Cfg.RestoreEach && isRepl && ev.Res != "skip" && len(ev.Remote) > 0) {
 			ev.Rest = r.Restore(0, time.Time{})
+		}
+		if ev.Op == "AuditNow" {
+			ev.Audit = r.audit()
+		}
+		if r.fc != nil {
+			ev.FaultsLeft = r.fc.left()
+			r.fc.mu.Lock()
+			ev.Calls = append([]string{}, r.fc.calls...)
+			r.fc.calls = nil
+			r.fc.mu.Unlock()
+		}
+		if len(ev.NewL0) > 0 || len(ev.NewRem) > 0 {
+			time.Sleep(2 * time.Millisecond) // header timestamps have millisecond resolution: keep files distinguishable
 		}
 		if ctl != nil && i < len(ctl) {
 			ev.Ctl = ctl[i]
@@ -776,5 +813,6 @@ func RunCase(c Case, baseDir string, hooks func(r *Runner, ls *litestream.DB)) (
 
 func blank(c Case, i int) Event {
 	return Event{T: c.ID, I: i, Res: "ok", Src: DBState{Pg: []int{}}, Integ: "none", Jrnl: "none", NewL0: []LtxObs{},
-		Remote: [][]int{}, Local: [][]int{}, Rest: NoRestore(), Ctl: -1, Cfg: c.Cfg, Audit: []AuditTx{}, Seq: -1, LockN: -1}
+		Remote: [][]int{}, Local: [][]int{}, Rest: NoRestore(), Ctl: -1, Cfg: c.Cfg, Audit: []AuditTx{}, Seq: -1, LockN: -1,
+		NewRem: []LtxObs{}, Calls: []string{}}
 }
